@@ -265,3 +265,25 @@ fn q_sub_collide() {
     if let Some((rk, _)) = r { assert!(rk == k); }
     assert!(c.len() == if k < 3 { 2 } else { 3 });
 }
+
+// ---- shrink_to: never raises the capacity, keeps it >= max(len, min) unless it already was below,
+//      transparent (C13); tombstones and the size of the fresh table are non-deterministic ------------
+#[kani::proof]
+#[kani::unwind(6)]
+fn t_sub_shrink_to() {
+    nondet(false, true);
+    unsafe { table::NONDET_CAP = true; }
+    let mut c = prebuilt(3, 4);
+    let _ = c.remove_entry(&1);
+    let o = order(&c);
+    let size_before = c.current_size();
+    let cap_before = c.capacity();
+    let min: usize = kani::any();
+    kani::assume(min <= 4);
+    c.shrink_to(min);
+    coherent(&c);
+    assert!(order(&c) == o && c.current_size() == size_before);
+    assert!(c.capacity() <= cap_before, "shrink_to raised the capacity");
+    let want = if min > 2 { min } else { 2 };
+    assert!(c.capacity() >= want || c.capacity() == cap_before);
+}
